@@ -30,11 +30,7 @@ Lemma json_wf_obj m :
   json_wf (JObj m) = j_str_nodup (map fst m) && forallb (fun kx => json_wf (snd kx)) m.
 Proof. cbn [json_wf]. f_equal. apply (fix_all_forallb2 (fun _ x => json_wf x)). Qed.
 
-Lemma edge_arr l : json_mentions_edge_int (JArr l) = existsb json_mentions_edge_int l.
-Proof. cbn [json_mentions_edge_int]. apply fix_any_existsb. Qed.
 
-Lemma edge_obj m : json_mentions_edge_int (JObj m) = existsb (fun kx => json_mentions_edge_int (snd kx)) m.
-Proof. cbn [json_mentions_edge_int]. apply (fix_any_existsb2 json_mentions_edge_int). Qed.
 
 Fixpoint sum_sizes (l : list json) : nat :=
   match l with [] => O | x :: r => (json_size x + sum_sizes r)%nat end.
@@ -370,26 +366,26 @@ Proof.
   - unfold json_as_i64. destruct v; try discriminate. destruct (z <? j_two63)%Z; [|discriminate].
     unfold j_fits_i32. tauto.
   - destruct v; cbn [json_is_f64 orb]; try discriminate; [|reflexivity].
-    unfold json_int_as_f64_abs_lt_max_safe. lia.
-  - unfold json_is_i64, json_as_i64. destruct v; cbn [json_is_string orb]; try discriminate; reflexivity.
+    unfold json_int_as_f64_abs_le_max_safe. lia.
+  - unfold json_is_i64, json_as_i64, json_is_u64. destruct v; cbn [json_is_string orb]; try discriminate; reflexivity.
 Qed.
 
-(* the converse needs the value not to be one of the two boundary integers *)
+(* the converse *)
 Lemma sp_scalar_cv n v :
-  json_mentions_edge_int v = false -> json_wf v = true -> SpecScalar n v -> cv_scalar_ok n v = true.
+  json_wf v = true -> SpecScalar n v -> cv_scalar_ok n v = true.
 Proof.
   destruct rn_distinct as (D1 & D2 & D3 & D4 & D5 & D6 & D7 & D8 & D9 & D10).
-  intros He Hw. unfold SpecScalar, cv_scalar_ok.
+  intros Hw. unfold SpecScalar, cv_scalar_ok.
   intros [[-> [z [-> Hz]]]|[[-> H]|[[-> [x ->]]|[[-> [b ->]]|[[-> H]|H]]]]].
-  - rewrite streq_refl. cbn [json_as_i64]. cbn in He, Hw. unfold cv_edge_int in He. unfold j_fits_i32.
+  - rewrite streq_refl. cbn [json_as_i64]. cbn in Hw. unfold j_fits_i32.
     assert (z <? j_two63 = true)%Z by (unfold j_two31, j_two63 in *; lia). rewrite H. unfold j_two31 in *. lia.
   - rewrite D1, streq_refl. destruct H as [[t ->]|[z [-> Hz]]]; [reflexivity|].
-    cbn [json_is_f64 orb]. cbn in He. unfold cv_edge_int in He. unfold json_int_as_f64_abs_lt_max_safe. lia.
+    cbn [json_is_f64 orb]. unfold json_int_as_f64_abs_le_max_safe. lia.
   - rewrite D2, D3, streq_refl. reflexivity.
   - rewrite D4, D5, D6, streq_refl. reflexivity.
   - rewrite D7, D8, D9, D10, streq_refl. destruct H as [[x ->]|[z ->]]; [reflexivity|].
-    cbn [json_is_string orb]. unfold json_is_i64, json_as_i64. cbn in He. unfold cv_edge_int in He.
-    assert (z <? j_two63 = true)%Z by lia. now rewrite H.
+    cbn [json_is_string orb]. unfold json_is_i64, json_as_i64, json_is_u64.
+    destruct (z <? j_two63)%Z eqn:E; [reflexivity|]. cbn [orb]. unfold j_two63 in E. lia.
   - unfold sp_builtin_scalar in H. name_cases n; try reflexivity; exfalso; apply H;
       repeat match goal with E : streq _ _ = true |- _ => apply streq_eq in E end; tauto.
 Qed.
@@ -747,10 +743,10 @@ Proof using Hwf HMx.
 Qed.
 
 (* ------------------------------------------------------------------ completeness: specification => code *)
-Lemma cv_value_complete : forall fuel t v r, json_wf v = true -> json_mentions_edge_int v = false ->
+Lemma cv_value_complete : forall fuel t v r, json_wf v = true ->
   cv_enough fuel t v -> SpecVal s t v r -> exists r', cv_value fuel s t v = CvOk r'.
 Proof.
-  induction fuel as [|fuel IH]; intros t v r Hw He [Ht Hf] Hs; [lia|].
+  induction fuel as [|fuel IH]; intros t v r Hw [Ht Hf] Hs; [lia|].
   cbn [cv_value]. destruct (json_is_null v) eqn:Enull.
   - apply json_is_null_true in Enull. subst v.
     inversion Hs; subst; try congruence; try discriminate.
@@ -763,8 +759,6 @@ Proof.
       - eapply IH; eauto. unfold cv_enough. lia.
       - eapply IH; eauto.
         + rewrite json_wf_arr, forallb_forall in Hw. now apply Hw.
-        + rewrite edge_arr in He. destruct (json_mentions_edge_int x) eqn:E; [|reflexivity].
-          assert (existsb json_mentions_edge_int l = true) by (apply existsb_exists; now exists x). congruence.
         + pose proof (json_size_arr_in _ _ Hx). unfold cv_enough.
           assert (json_size x * S (S Mx) + S (S Mx) <= json_size (JArr l) * S (S Mx))%nat by nia. lia. }
     assert (Hlist : forall inner, S (cv_ty_size inner) = cv_ty_size t -> sp_list_inner t = Some inner ->
@@ -810,9 +804,6 @@ Proof.
             assert (Hx : exists r', cv_value fuel s (iv_ty f) fv = CvOk r').
             { eapply IH; eauto.
               - eapply json_wf_obj_in; eauto.
-              - rewrite edge_obj in He. destruct (json_mentions_edge_int fv) eqn:E; [|reflexivity].
-                assert (existsb (fun kx => json_mentions_edge_int (snd kx)) obj = true)
-                  by (apply existsb_exists; now exists (iv_name f, fv)). congruence.
               - pose proof (json_size_obj_in _ _ _ Eget).
                 pose proof (schema_field_ty_size _ _ _ _ _ _ _ Eg Hfin). unfold cv_enough.
                 assert (json_size fv * S (S Mx) + S (S Mx) <= json_size (JObj obj) * S (S Mx))%nat by nia. lia. }
@@ -973,21 +964,17 @@ Proof using Hwf Hvalues.
     destruct (is_non_null (v_ty vd)); discriminate.
 Qed.
 
-Lemma cv_vars_complete r : known_edge_int values = false -> SpecVars s vars values r ->
+Lemma cv_vars_complete r : SpecVars s vars values r ->
   exists r', coerce_variable_values s vars values = CvOk r'.
 Proof.
-  intros He [_ Hs]. unfold coerce_variable_values. rewrite cvv_eq.
+  intros [_ Hs]. unfold coerce_variable_values. rewrite cvv_eq.
   assert (Hm : exists outs, cv_map_m (cvv_step (cv_fuel s vars values) values) vars = CvOk outs).
   { apply cv_map_m_total. intros vd Hin. destruct (Hs vd Hin) as [Ha [Hb Hc]]. unfold cvv_step.
     destruct (jmap_get (v_name vd) values) as [value|] eqn:Eget.
     - destruct (Ha value eq_refl) as [rv [_ Hrv]].
       assert (Hx : exists r', cv_value (cv_fuel s vars values) s (v_ty vd) value = CvOk r').
-      { eapply cv_value_complete; [| | |now apply cv_fuel_enough|eassumption]; [lia| |].
-        - apply (json_wf_obj_in values (v_name vd) value Hvalues). now apply jmap_get_in.
-        - unfold known_edge_int in He. rewrite edge_obj in He.
-          destruct (json_mentions_edge_int value) eqn:E; [|reflexivity]. apply jmap_get_in in Eget.
-          assert (existsb (fun kx => json_mentions_edge_int (snd kx)) values = true)
-            by (apply existsb_exists; now exists (v_name vd, value)). congruence. }
+      { eapply cv_value_complete; [| |now apply cv_fuel_enough|eassumption]; [lia|].
+        apply (json_wf_obj_in values (v_name vd) value Hvalues). now apply jmap_get_in. }
       destruct Hx as [r' ->]. cbn [cv_bind]. now exists (Some r').
     - destruct (v_default vd) as [dv|] eqn:Edv.
       + destruct (var_default_coerced _ _ Hin Edv) as [j [-> _]]. cbn [cv_bind]. now exists (Some j).
